@@ -1,5 +1,6 @@
 import RexModel.Gen.Compiled
 import RexModel.Gen.Calls
+import RexModel.Compiled.Exec
 import Mathlib.Logic.Function.Iterate
 
 /-! # C09 — compiled execution is a pure function, independent of the driving API
@@ -115,5 +116,21 @@ theorem sup_skip_iff (step : Int) : sup_skip_pred step = true ↔ step = 0 := by
   simp [sup_skip_pred]
 
 example : replace_eps_clip 7 3 = 2 ∧ replace_eps_clip (-3) 3 = 0 ∧ replace_eps_clip 1 3 = 1 := by decide
+
+/-! ## The same on the concrete executor model (`Compiled/Exec.lean`) -/
+
+/-- a rollout over a horizon of partitions (each a list of generations) is the iteration of single-partition runs: the
+executor's state after `run; run; …` is its state after executing all generations in one go — nothing depends on where the
+driving API cuts the horizon -/
+theorem C09_exec_rollout_is_iterated_run {Val : Type} (winsOf : Rex.Sched.Wins) (step : Rex.Sched.Step Val)
+    (st : Rex.Sched.XSt Val) (parts : List (List (List Rex.Sched.Vtx))) :
+    parts.foldl (fun s p => Rex.Sched.exec winsOf step s p) st = Rex.Sched.exec winsOf step st parts.flatten :=
+  Rex.Sched.exec_partitions winsOf step st parts
+
+/-- … and cutting it in two anywhere gives the same state -/
+theorem C09_exec_split {Val : Type} (winsOf : Rex.Sched.Wins) (step : Rex.Sched.Step Val)
+    (st : Rex.Sched.XSt Val) (A B : List (List Rex.Sched.Vtx)) :
+    Rex.Sched.exec winsOf step st (A ++ B) = Rex.Sched.exec winsOf step (Rex.Sched.exec winsOf step st A) B :=
+  Rex.Sched.exec_append winsOf step st A B
 
 end Rex.C09
